@@ -193,7 +193,7 @@ func Package(repoDir, pkgDir string, files []string, outDir string, opts Options
 	}
 	info := &types.Info{Types: map[ast.Expr]types.TypeAndValue{}, Uses: map[*ast.Ident]types.Object{}, Defs: map[*ast.Ident]types.Object{}, Selections: map[*ast.SelectorExpr]*types.Selection{}}
 	conf := types.Config{Importer: importer.ForCompiler(fset, "gc", lookup), FakeImportC: true, Error: func(error) {}}
-	conf.Check(self.ImportPath, fset, astFiles, info) // errors tolerated (cgo); missing types make the rewriter refuse below
+	tpkg, _ := conf.Check(self.ImportPath, fset, astFiles, info) // errors tolerated (cgo); missing types make the rewriter refuse below
 
 	// which named struct type declares which field (for the designated-location table)
 	owners := map[*types.Var]string{}
@@ -218,7 +218,7 @@ func Package(repoDir, pkgDir string, files []string, outDir string, opts Options
 		if len(self.CgoFiles) > 0 && contains(self.CgoFiles, names[i]) {
 			continue
 		}
-		rw := &rewriter{fset: fset, info: info, opts: opts, file: names[i], pkgDir: pkgDir, fieldOwner: owners}
+		rw := &rewriter{fset: fset, info: info, opts: opts, file: names[i], pkgDir: pkgDir, fieldOwner: owners, tpkg: tpkg}
 		if err := rw.file_(af); err != nil {
 			return nil, fmt.Errorf("%s/%s: %v", pkgDir, names[i], err)
 		}
@@ -268,6 +268,8 @@ type rewriter struct {
 	fieldOwner map[*types.Var]string
 	err        error
 	accSet     map[string]bool
+	inline     map[ast.Expr]string
+	tpkg       *types.Package
 }
 
 func (r *rewriter) site(p token.Pos) string {
@@ -523,6 +525,41 @@ func simpleBase(e ast.Expr) bool {
 	return false
 }
 
+// simpleBaseT is simpleBase plus element selections a[i] / m[k] (simple index; slices, arrays, and maps of
+// pointers, whose elements' fields stay addressable).
+func (r *rewriter) simpleBaseT(e ast.Expr) bool {
+	switch x := e.(type) {
+	case *ast.Ident:
+		return true
+	case *ast.SelectorExpr:
+		return r.simpleBaseT(x.X)
+	case *ast.ParenExpr:
+		return r.simpleBaseT(x.X)
+	case *ast.StarExpr:
+		return r.simpleBaseT(x.X)
+	case *ast.IndexExpr:
+		if _, lit := x.Index.(*ast.BasicLit); !r.simpleBaseT(x.X) || !(lit || simpleBase(x.Index)) {
+			return false
+		}
+		tv, ok := r.info.Types[x.X]
+		if !ok || tv.Type == nil {
+			return false
+		}
+		t := tv.Type.Underlying()
+		if p, ok := t.(*types.Pointer); ok {
+			t = p.Elem().Underlying()
+		}
+		switch u := t.(type) {
+		case *types.Slice, *types.Array:
+			return true
+		case *types.Map:
+			_, ptr := u.Elem().Underlying().(*types.Pointer)
+			return ptr
+		}
+	}
+	return false
+}
+
 func hasCall(e ast.Expr) bool {
 	found := false
 	ast.Inspect(e, func(n ast.Node) bool {
@@ -549,15 +586,35 @@ func (r *rewriter) designated(e ast.Expr) string {
 		if !ok {
 			return ""
 		}
-		if name, ok := r.fieldOwner[v]; ok && r.accSet[name] && simpleBase(x.X) {
+		if name, ok := r.fieldOwner[v]; ok && r.simpleBaseT(x.X) && (r.accSet[name] || (r.accSet["*"] && !r.accSet["-"+name] && !syncType(v.Type()))) {
 			return name
 		}
 	case *ast.Ident:
-		if obj, ok := r.info.Uses[x].(*types.Var); ok && obj.Parent() != nil && obj.Pkg() != nil && obj.Parent() == obj.Pkg().Scope() && r.accSet[x.Name] {
+		if obj, ok := r.info.Uses[x].(*types.Var); ok && obj.Parent() != nil && obj.Pkg() != nil && obj.Parent() == obj.Pkg().Scope() && (r.accSet[x.Name] || (r.accSet["*"] && obj.Pkg() == r.tpkg && !r.accSet["-"+x.Name] && !syncType(obj.Type()))) {
 			return x.Name
 		}
 	}
 	return ""
+}
+
+// syncType: locations of these types synchronise by themselves (their accesses are scheduling points
+// with their own clocks); the wildcard leaves them out.
+func syncType(t types.Type) bool {
+	if p, ok := t.(*types.Pointer); ok {
+		t = p.Elem()
+	}
+	switch u := t.(type) {
+	case *types.Chan:
+		return true
+	case *types.Named:
+		if u.Obj().Pkg() != nil {
+			switch pp := u.Obj().Pkg().Path(); {
+			case pp == "sync", pp == "sync/atomic", pp == "context", strings.Contains(pp, "/shim/"), strings.HasSuffix(pp, "/errgroup"), strings.HasSuffix(pp, "/semaphore"):
+				return true
+			}
+		}
+	}
+	return false
 }
 
 func (r *rewriter) accStmt(e ast.Expr, write bool, pos token.Pos, name string) ast.Stmt {
@@ -582,6 +639,10 @@ func cloneExpr(e ast.Expr) ast.Expr {
 		return &ast.ParenExpr{X: cloneExpr(x.X)}
 	case *ast.StarExpr:
 		return &ast.StarExpr{X: cloneExpr(x.X)}
+	case *ast.IndexExpr:
+		return &ast.IndexExpr{X: cloneExpr(x.X), Index: cloneExpr(x.Index)}
+	case *ast.BasicLit:
+		return &ast.BasicLit{Kind: x.Kind, Value: x.Value}
 	}
 	return e
 }
@@ -617,6 +678,14 @@ func (r *rewriter) accesses(s ast.Stmt) (before, after []ast.Stmt) {
 			switch x := n.(type) {
 			case *ast.FuncLit:
 				return false
+			case *ast.BinaryExpr:
+				if x.Op == token.LAND || x.Op == token.LOR {
+					// the right operand is evaluated conditionally (often behind a nil check of its base):
+					// a statement in front of s must not evaluate it; its reads are reported in place
+					reads(x.X)
+					r.inlineReads(x.Y)
+					return false
+				}
 			case *ast.CallExpr:
 				// delete(m, k) writes the map
 				if id, ok := x.Fun.(*ast.Ident); ok && id.Name == "delete" && len(x.Args) == 2 {
@@ -700,8 +769,37 @@ func (r *rewriter) accesses(s ast.Stmt) (before, after []ast.Stmt) {
 	return
 }
 
+// inlineReads marks the designated locations read inside e for reporting at the place of the read:
+// x.f becomes (*zzmcrt.AccP(&(x.f), site)).
+func (r *rewriter) inlineReads(e ast.Expr) {
+	ast.Inspect(e, func(n ast.Node) bool {
+		switch x := n.(type) {
+		case *ast.FuncLit:
+			return false
+		case *ast.UnaryExpr:
+			if x.Op == token.AND {
+				return false
+			}
+		case *ast.SelectorExpr, *ast.Ident:
+			if name := r.designated(x.(ast.Expr)); name != "" {
+				if r.inline == nil {
+					r.inline = map[ast.Expr]string{}
+				}
+				r.inline[x.(ast.Expr)] = name
+			}
+		}
+		return true
+	})
+}
+
 // expr is called after the children of e were rewritten.
 func (r *rewriter) expr(e ast.Expr) ast.Expr {
+	if name, ok := r.inline[e]; ok {
+		delete(r.inline, e)
+		r.usedMC = true
+		addr := &ast.UnaryExpr{Op: token.AND, X: &ast.ParenExpr{X: e}}
+		return &ast.ParenExpr{X: &ast.StarExpr{X: call(mc("AccP"), addr, strLit(name+" @ "+r.site(e.Pos())))}}
+	}
 	switch x := e.(type) {
 	case *ast.UnaryExpr:
 		if x.Op == token.ARROW {
